@@ -382,12 +382,14 @@ def run(ck):
                     for _ in range(200):
                         p, q = rng.choice(idx), rng.choice(idx)
                         exp = F(0)
+                        mag = F(0)      # the float sum of up to three terms may cancel: tolerance relative to the terms
                         for ax in range(dim):
                             if all(p[a] == q[a] for a in range(dim) if a != ax):
                                 exp += F(float(D1[p[ax], q[ax]]))
+                                mag += abs(F(float(D1[p[ax], q[ax]])))
                         flat = lambda t: sum(t[a] * size ** (dim - 1 - a) for a in range(dim))
                         got = F(float(Dn[flat(p), flat(q)]))
-                        if abs(got - exp) > abs(exp) * F(1, 2 ** 48):
+                        if abs(got - exp) > mag * F(1, 2 ** 48):
                             ok = False
                             break
                 nk += 1
